@@ -387,7 +387,7 @@ def _mk_sum(tag, log):
             return lena.math.Sum.compute(self)
 
         def state(self):
-            return {"v": [], "n": 0, "calls": 0, "total": self._total}
+            return {"v": [], "n": 0, "calls": 0, "total": self.total}  # the public property of lena.math.Sum
     return LSum()
 
 
@@ -1485,6 +1485,43 @@ def _runx_impl(case):
     return {"runs": _runx_on(s, specs, els, log, case["flows"], runner)}
 
 
+def _lazy_identity(s):
+    """Observation through the public `run` only: does `s.run(flow)` hand on every value of the flow unchanged (the
+    very objects, in order) and one by one, i.e. value k is yielded when exactly k values have been taken from the
+    flow?  This is what 'an empty Split yields all values it receives' looks like from outside (the method it is
+    implemented by is private and may be called anything).  A Split with branches and bufsize None reads the whole
+    flow into its block before a branch runs, so it never is the lazy identity."""
+    probe = [[("probe", i)] for i in range(3)]  # fresh mutable objects: identity is meaningful, a deep copy is another object
+    pulled = [0]
+
+    def flow():
+        for x in probe:
+            pulled[0] += 1
+            yield x
+    out = []
+    try:
+        for v in s.run(flow()):
+            if pulled[0] != len(out) + 1:
+                return False
+            out.append(v)
+    except Exception:
+        return False  # a branch that cannot digest the probe values: there are branches, and they are used
+    return len(out) == len(probe) and all(a is b for a, b in zip(out, probe))
+
+
+def _acts_as_empty(make, bufsize_none_make=None):
+    """the observable counterpart of the model's `emptyRun` flag (`self.run = self._empty_run` in Split.__init__):
+    fresh Splits of the same arguments are the lazy identity, with the bufsize of the case and with bufsize None
+    (with a block size of 1 a Split of one pass-through Sequence is indistinguishable from an empty one; with None
+    it is not)"""
+    try:
+        if not _lazy_identity(make()):
+            return False
+        return True if bufsize_none_make is None else _lazy_identity(bufsize_none_make())
+    except Exception:
+        return False
+
+
 def _methods_impl(case):
     import lena.core
     specs, blocks = case["brs"], case["blocks"]
@@ -1501,7 +1538,7 @@ def _methods_impl(case):
         return {"e": exc_name(e), "phase": "init"}
     res["methods"] = {"fill": hasattr(s, "fill"), "compute": hasattr(s, "compute"),
                       "request": hasattr(s, "request"),
-                      "empty_run": getattr(s.run, "__name__", "") == "_empty_run"}
+                      "empty_run": _acts_as_empty(lambda: build()[0])}
     try:
         res["call"] = canon(list(s()))
         res["methods"]["callable"] = True
@@ -1890,9 +1927,13 @@ def _oracle_realfc(case, res):
     return None
 
 
-def _caps_el(caps, is_cache=False):
+def _caps_el(caps, is_cache=False, log=None):
     """an object with the given attributes: lower case = callable, upper case (F C Q R I) = present but NOT callable
-    (the checks of check_sequence_type.py / adapters.py demand callables); is_cache: the attribute of lena.flow.Cache"""
+    (the checks of check_sequence_type.py / adapters.py demand callables); is_cache: the attribute of lena.flow.Cache;
+    log: every call of a method of the object is recorded there"""
+    def ev(name):
+        if log is not None:
+            log.append(("el", name))
     d = {}
     for up, name in (("F", "fill"), ("C", "compute"), ("Q", "request"), ("R", "run"), ("I", "fill_into")):
         if up in caps:
@@ -1900,26 +1941,29 @@ def _caps_el(caps, is_cache=False):
     if is_cache:
         d["is_cache"] = True
     if "f" in caps:
-        d["fill"] = lambda self, v: None
+        d["fill"] = lambda self, v: ev("fill")
     if "c" in caps:
-        d["compute"] = lambda self: iter(())
+        d["compute"] = lambda self: (ev("compute"), iter(()))[1]
     if "q" in caps:
-        d["request"] = lambda self: iter(())
+        d["request"] = lambda self: (ev("request"), iter(()))[1]
     if "r" in caps:
-        d["run"] = lambda self, flow: iter(list(flow))
+        d["run"] = lambda self, flow: (ev("run"), iter(list(flow)))[1]
     if "k" in caps:
-        d["__call__"] = lambda self, v: v
+        d["__call__"] = lambda self, v: (ev("call"), v)[1]
     if "i" in caps:
-        d["fill_into"] = lambda self, el, v: el.fill(v)
+        d["fill_into"] = lambda self, el, v: (ev("fill_into"), el.fill(v))[1]
     if "b" in caps:
+        # a public protocol attribute of lena.core.Run adapters in spite of its underscore: lena reads it with
+        # hasattr(el, "_can_break_flow") from objects users write
         d["_can_break_flow"] = True
     return type("El_" + (caps or "none"), (object,), d)()
 
 
-def _mk_obj(o):
+def _mk_obj(o, log=None):
     import lena.core as lc
     t = o["t"]
-    log = []
+    if log is None:
+        log = []
     if t == "source":
         return lc.Source(SrcEl(0, 1, log))
     if t == "fcseq":
@@ -1933,33 +1977,92 @@ def _mk_obj(o):
     if t == "seq":
         return lc.Sequence(SQ(0, "cache" if flag(0) else "map", log))
     if t == "el":
-        return _caps_el(o["caps"], flag(0))
+        return _caps_el(o["caps"], flag(0), log)
     if t == "tuple":
-        return tuple(_caps_el(c, flag(i)) for i, c in enumerate(o["els"]))
+        return tuple(_caps_el(c, flag(i), log) for i, c in enumerate(o["els"]))
     if t == "list":
-        return [_caps_el(c, flag(i)) for i, c in enumerate(o["els"])]
+        return [_caps_el(c, flag(i), log) for i, c in enumerate(o["els"])]
     raise ValueError(t)
+
+
+def _offered(s):
+    """which methods a Split offers (public attributes; callable = `s()` does not raise LenaAttributeError)"""
+    import lena.core
+    m = {"fill": hasattr(s, "fill"), "compute": hasattr(s, "compute"), "request": hasattr(s, "request")}
+    try:
+        list(s())
+        m["callable"] = True
+    except lena.core.LenaAttributeError:
+        m["callable"] = False
+    return m
+
+
+def _single_kind(o):
+    """How Split classifies ONE argument, read off the public interface: a Split of that argument alone has one common
+    type and offers that type's methods (fill+compute, fill+request, call; none of them: a plain Sequence).  The list
+    Split keeps of these classifications is private."""
+    import lena.core
+    try:
+        m = _offered(lena.core.Split([_mk_obj(o)], bufsize=None))
+    except Exception as e:
+        return "raised:" + exc_name(e)
+    if m["fill"] and m["compute"] and not m["request"] and not m["callable"]:
+        return "fill_compute"
+    if m["fill"] and m["request"] and not m["compute"] and not m["callable"]:
+        return "fill_request"
+    if m["callable"] and not (m["fill"] or m["compute"] or m["request"]):
+        return "source"
+    if not any(m.values()):
+        return "sequence"
+    return "unclear:" + jdump(m)
+
+
+def _first_block(case):
+    """Public observation of the block size the constructed Split works with (the Cache rule of Split.__init__; the
+    attribute that holds it is private): how many values `run` takes from a flow of bufsize+1 values (3 for None)
+    before the first branch is touched (any method of any element called) or the first value is yielded."""
+    import lena.core
+    log = []
+    s = lena.core.Split([_mk_obj(o, log) for o in case["objs"]], bufsize=case["bufsize"])
+    del log[:]
+    n = 3 if case["bufsize"] is None else case["bufsize"] + 1
+    st = {"pulled": 0, "first": None}
+
+    def flow():
+        for i in range(n):
+            if st["first"] is None and log:
+                st["first"] = st["pulled"]
+            st["pulled"] += 1
+            yield i
+    gen = s.run(flow())
+    try:
+        for _ in gen:
+            break
+    except Exception:
+        pass
+    if st["first"] is None:
+        st["first"] = st["pulled"]
+    try:
+        gen.close()
+    except Exception:
+        pass
+    return {"n": n, "pulled": st["first"]}
 
 
 def _init_impl(case):
     import lena.core
     import lena.flow
     res = {}
-    objs = [_mk_obj(o) for o in case["objs"]]
-    arg = objs if case["is_list"] else tuple(objs)
+
+    def fresh(bufsize):
+        objs = [_mk_obj(o) for o in case["objs"]]
+        return lena.core.Split(objs if case["is_list"] else tuple(objs), bufsize=bufsize)
     try:
-        s = lena.core.Split(arg, bufsize=case["bufsize"])
-        m = {"fill": hasattr(s, "fill"), "compute": hasattr(s, "compute"), "request": hasattr(s, "request"),
-             "empty_run": getattr(s.run, "__name__", "") == "_empty_run"}
-        try:
-            list(s())
-            m["callable"] = True
-        except lena.core.LenaAttributeError:
-            m["callable"] = False
-        res["split"] = {"kinds": list(getattr(s, "_seq_types", None) or []) if hasattr(s, "_seq_types") else None,
-                        "methods": m}
-        if hasattr(s, "_bufsize"):
-            res["split"]["bufsize"] = s._bufsize
+        s = fresh(case["bufsize"])
+        m = _offered(s)
+        m["empty_run"] = _acts_as_empty(lambda: fresh(case["bufsize"]), lambda: fresh(None))
+        res["split"] = {"kinds": [_single_kind(o) for o in case["objs"]], "methods": m,
+                        "first_block": _first_block(case)}
     except Exception as e:
         res["split"] = {"e": exc_name(e)}
     import lena.core.check_sequence_type as ct
@@ -2327,8 +2430,14 @@ def compare(case, res, replies):
                     return f"split kinds: impl {a['kinds']} vs model {b['kinds']}"
                 if a["methods"] != b["methods"]:
                     return f"split methods: impl {a['methods']} vs model {b['methods']}"
-                if "bufsize" in a and "bufsize" in b and a["bufsize"] != b["bufsize"]:
-                    return f"block size of the constructed Split (Cache rule): impl {a['bufsize']} vs model {b['bufsize']}"
+                fb = a.get("first_block")
+                if fb is not None and b["kinds"] and "bufsize" in b:
+                    # an empty Split hands the values on one by one: no blocks to observe
+                    exp = fb["n"] if b["bufsize"] is None else min(b["bufsize"], fb["n"])
+                    if fb["pulled"] != exp:
+                        return (f"block size of the constructed Split (Cache rule): run takes {fb['pulled']} of "
+                                f"{fb['n']} values before the first branch is touched, the model's block size "
+                                f"{b['bufsize']} means {exp}")
             elif a != b:
                 return f"zip: impl {a} vs model {b}"
         return None
@@ -3023,9 +3132,21 @@ ASSUMPTIONS = [
     "Zip: valid distinct field names (namedtuple's own ValueError and the pickling hook globals()[name] are outside); "
     "Zip._create_context is C07's model and theorem (Lena.C07.zip_context), imported",
     "LenaSplit._get_context/_set_context (static context: C13), _repr_nested/__repr__/__eq__ are not part of the "
-    "statement and not modelled; private attributes are read only for op=init (_seq_types, _bufsize: compared when "
-    "present) — every other comparison is on yielded values, exceptions, invocation logs of the harness elements "
-    "and their states",
+    "statement and not modelled",
+    "NO private name of a lena object is read, called or compared (a consistent rename of lena's private "
+    "attributes and methods must not change any verdict): every comparison is on yielded values, exceptions, the "
+    "public attributes fill/compute/request/run/__call__ (hasattr), invocation logs of the harness elements and "
+    "their states (lena.math.Sum through its public property `total`).  The model's private quantities of "
+    "Split.__init__ are observed from outside (ops init, methods): emptyRun (`self.run = self._empty_run`) as "
+    "'fresh Splits of the same arguments, with the bufsize of the case and with bufsize None, hand on the very "
+    "objects of a 3-value probe flow one by one (value k is yielded when exactly k values have been taken)' — so an "
+    "empty Split that were the identity but read ahead would be reported as not offering the empty run; the kinds "
+    "list (_seq_types) as 'the methods a Split of that one argument offers' (position-dependent misclassification "
+    "is visible only through the methods of the whole Split and the run ops); the effective block size (_bufsize, "
+    "Cache rule) as 'the number of values run takes from a flow of bufsize+1 values (3 for None) before any method "
+    "of any element is called or a value is yielded' (not observable, hence not compared, for an empty Split).  "
+    "`_can_break_flow` is set on harness elements: it is the attribute lena's Run adapter asks user elements for "
+    "with hasattr(el, \"_can_break_flow\") — a protocol name, public in spite of its underscore",
 ]
 RULE = ("op=run: one case = (branch list, flow, copy_buf) run under EVERY bufsize in {1..len(flow)+1, 1000, None}; "
         "exhaustive over the four branch kinds with tagged outputs and LenaStopFill at every fill index "
